@@ -181,6 +181,15 @@ static std::string canon_ftoa(ld x, float fx, int prec8, long ret, bool within)
     return hex(c) + " r" + std::to_string(ret) + (within ? " within" : " outside");
 }
 static std::string twin_f32toa(float f, int8_t precision);
+// the precision clamp, measured: fraction digits of 0.1f rendered with precision 127
+static int measured_max_precision()
+{
+    char b[200];
+    memset(b, 0, sizeof b);
+    igris_f32toa(0.1f, b, 127);
+    const char *dot = strchr(b, '.');
+    return dot ? (int)strlen(dot + 1) : 0;
+}
 
 struct ftoa_out { std::string text; long ret; bool clean; };
 // kind 0: f32toa, 1: f64toa, 2: ftoa
@@ -423,6 +432,20 @@ static int entry_index(const std::string &op)
 // is32: the value is a float32_t; single: accuracy of binary32 (is32, or a float widened to double by the
 // WITHOUT_ATOF64 flavour of igris_strtod / strtod / atof)
 struct pres { bool is32 = false, single = false, has_end = true, unset = false; long end = 0; float vf = 0; double vd = 0; };
+// the reader's position after the call.  bind_buffer(ptr, 0) is a public member, but not one the property names:
+// when it is renamed / removed the position is taken from the object representation (the reader holds exactly one
+// `const char *`) - a probe, not a compile error
+template <class R> static const char *reader_position(R &br)
+{
+    const char *q = 0;
+    if constexpr (requires { br.bind_buffer(q, (size_t)0); }) br.bind_buffer(q, 0);
+    else
+    {
+        static_assert(sizeof(R) >= sizeof(const char *));
+        memcpy(&q, &br, sizeof q);
+    }
+    return q;
+}
 static pres call_entry(int k, const char *s)
 {
     pres r;
@@ -440,9 +463,7 @@ static pres call_entry(int k, const char *s)
     {
         igris::binreader br(s);
         br.read_ascii_decimal_float(&r.vf);
-        const char *q;
-        br.bind_buffer(q, 0); // reads the reader's position
-        end = (char *)q;
+        end = (char *)reader_position(br);
         r.is32 = r.single = true;
         break;
     }
@@ -754,16 +775,37 @@ static void run_op(const std::vector<std::string> &w, const std::string &, out &
     const std::string &op = w[0];
     if (op == "tbl")
     {
+        // ROUND 3b.  What the property fixes is the BEHAVIOUR the table produces (precisions 0..10, round half up at
+        // every precision), not a table: the compared result is the clamp measured by rendering with precision 127 and,
+        // for every precision p, the canonical lines of 0.55e-p (must round up) and 0.45e-p (must round down).  The
+        // table itself - when numconvert.c still has a `static const double rounders[]` - is a TAG.
+        int mp = measured_max_precision();
+        o.result = "maxprec=" + std::to_string(mp);
+        for (int p = 1; p <= 10; p++)
+            for (const char *m : {"0.55e-", "0.45e-"})
+            {
+                float f = (float)strtod((m + std::to_string(p)).c_str(), 0);
+                ftoa_out r = run_ftoa(0, bits(f), (int8_t)p);
+                const char *why = check_ftoa_text(f, f, p, r.text.data(), r.text.size(), false);
+                o.result += " " + canon_ftoa(f, f, p, r.ret, !why);
+                if (why || !r.clean || r.ret) o.fail(std::string(why ? why : "buffer / returned pointer") + " at " + m + std::to_string(p) + " text=`" + r.text + "`");
+            }
+        if (mp != 10) o.fail("precisions are clamped to " + std::to_string(mp) + ", the property renders 0..10");
         const double *t = igv_rounders();
-        std::string s = std::to_string(igv_max_precision());
-        for (int i = 0; i <= igv_max_precision(); i++)
+        int macro = igv_max_precision();
+        o.tag(macro < 0 ? "MAX_PRECISION-macro-not-found" : macro == mp ? "MAX_PRECISION-macro-agrees" : "MAX_PRECISION-macro-differs-from-behaviour");
+        if (t[0] == 0) o.tag("rounders-table-not-found");
+        else
         {
-            s += " " + dbits(t[i]) + ":" + fbits((float)t[i]);
-            // oracle: the entry is the double nearest to 0.5 * 10^-i
-            std::string lit = "0.5e-" + std::to_string(i);
-            if (t[i] != strtod(lit.c_str(), 0)) o.fail("rounders[" + std::to_string(i) + "] is not 0.5e-" + std::to_string(i));
+            bool as_modelled = true;
+            for (int i = 0; i <= (macro < 0 ? 0 : macro); i++)
+            {
+                // oracle (only while the table exists): the entry is the double nearest to 0.5 * 10^-i
+                std::string lit = "0.5e-" + std::to_string(i);
+                if (t[i] != strtod(lit.c_str(), 0)) as_modelled = false, o.fail("rounders[" + std::to_string(i) + "] is not 0.5e-" + std::to_string(i));
+            }
+            o.tag(as_modelled ? "rounders-table-as-modelled" : "rounders-table-differs");
         }
-        o.result = s;
         return;
     }
     if (op == "f32" || op == "f64" || op == "ftoa" || op == "ftoa32")
@@ -930,7 +972,7 @@ static void run_op(const std::vector<std::string> &w, const std::string &, out &
                    " atof32=" + std::to_string(sizeof(igris_atof32("0", &e))) + " atof64=" + std::to_string(sizeof(igris_atof64("0", &e))) +
                    " strtod=" + std::to_string(sizeof(igris_strtod("0", &e))) + " strtod32=" + std::to_string(sizeof(igv32_igris_strtod("0", &e))) +
                    " ftoa32arg=" + std::to_string(igv32_sizeof_ftoa_arg()) + " int=" + std::to_string(sizeof(int)) +
-                   " maxprec=" + std::to_string(igv_max_precision());
+                   " maxprec=" + std::to_string(measured_max_precision());
         return;
     }
     if (op == "premain")
